@@ -4,6 +4,7 @@
    first finish).  That every way an RPC can end reaches exactly one finish, and which sizes are added, is checked on
    the implementation against sizes recomputed from the raw frames. *)
 From FMP Require Import Base.Bytes Model.Instrument Model.Events Model.Props.
+From FMP Require Import Model.Paths Proofs.PathProofs.
 Open Scope Z_scope.
 
 Theorem C20_one_record_per_instrumenter : forall ops,
@@ -26,6 +27,26 @@ Proof. reflexivity. Qed.
 Example ex_client : snd (irun inst0 [IIncrement 8; IRecordAndFinish 12]) = [20].
 Proof. reflexivity. Qed.
 
+(* ---------- every way an RPC can end reaches exactly one finish (paths of the regenerated function bodies) ----------
+   Model/Paths.v enumerates every path through dispatch.Call / Notify / handleCancel, the two Reply functions and the two Serve
+   functions as they are in the source now (all branches, select arms, early returns, deferred calls in reverse order): once
+   the frame has been handed to the encoder the record is finished exactly once, after that point; never twice on any path;
+   every served call goes through Reply.  The definitions named here are in Model/Paths.v. *)
+Theorem C20_call_paths_accounted : call_paths_accounted = true. Proof. exact paths_call_accounted. Qed.
+Theorem C20_notify_paths_accounted : notify_paths_accounted = true. Proof. exact paths_notify_accounted. Qed.
+Theorem C20_cancel_paths_accounted : cancel_paths_accounted = true. Proof. exact paths_cancel_accounted. Qed.
+Theorem C20_reply_paths_accounted : reply_paths_accounted = true. Proof. exact paths_reply_accounted. Qed.
+Theorem C20_never_accounted_twice : never_accounted_twice = true. Proof. exact paths_never_accounted_twice. Qed.
+Theorem C20_serve_paths_reply : serve_paths_reply = true. Proof. exact paths_serve_replies. Qed.
+Theorem C20_paths_nonvacuous : paths_nonvacuous = true. Proof. exact paths_are_nonvacuous. Qed.
+
 Print Assumptions C20_one_record_per_instrumenter.
 Print Assumptions C20_second_finish_refused.
 Print Assumptions C20_recorded_size_is_sum.
+Print Assumptions C20_call_paths_accounted.
+Print Assumptions C20_notify_paths_accounted.
+Print Assumptions C20_cancel_paths_accounted.
+Print Assumptions C20_reply_paths_accounted.
+Print Assumptions C20_never_accounted_twice.
+Print Assumptions C20_serve_paths_reply.
+Print Assumptions C20_paths_nonvacuous.
